@@ -91,14 +91,15 @@ Paths == PathNames \cap DOMAIN Ev.paths
 
 MigIssues ==
     LET cls == Ev.class
-        bi  == Ev.before.inst[1]
+        F   == IF "focus" \in DOMAIN Ev THEN Ev.focus ELSE 1      \* the instance this event is about
+        bi  == Ev.before.inst[F]
         legacyProp == bi.props[CHOOSE x \in 1..Len(bi.props) : bi.props[x][1] = Ev.legacy]
         tn  == CanonicalName(cls, Ev.target)
         expected == IF Ev.explicit = 1
                     THEN bi.props[CHOOSE x \in 1..Len(bi.props) : bi.props[x][1] = Ev.target][2]
                     ELSE MigValue(Ev.migop, legacyProp[2])
         okPaths == {p \in Paths : TripOK(Ev.paths[p])}
-        inst(p) == Ev.paths[p].after.inst[1]
+        inst(p) == Ev.paths[p].after.inst[F]
         has(p, nm) == \E y \in 1..Len(inst(p).props) : inst(p).props[y][1] = nm
         valOf(p, nm) == inst(p).props[CHOOSE y \in 1..Len(inst(p).props) : inst(p).props[y][1] = nm][2]
         legacyNames == {nm \in PropNames(IF cls \in Classes THEN Canonical(cls, Ev.legacy).class ELSE cls) :
